@@ -110,6 +110,15 @@ CHECKS["C12"] = dict(
     note="Reports are compared after removing file names and line/column details. In structured mode compliant/not_applicable are name sets by design.",
     ref="DESIGN.md §6 P-C12")
 
+CHECKS["C16"] = dict(
+    technique="runtime monitoring: differential monitor between the `test` and `validate` front ends over enumerated expectation assignments",
+    text="Generated rules files (45% with a doubly defined rule name) x 1-4 documents x all 3^k expectation assignments (k<=3) incl. rules without "
+         "expectation are run through `test` in plain/json/yaml/junit rendering and files/--dir layout; each (case, rule) outcome (met / unmet / no "
+         "expectation), the evaluated statuses of unmet expectations and the exit code 0/7 must follow from the statuses `validate --print-json` "
+         "assigns to that rule on the same input, and all renderings must carry the same relation.",
+    note="validate's print-json record is the reference for per-definition statuses. Output order is C05's concern, relations are compared as sets.",
+    ref="DESIGN.md §6 P-C16")
+
 PENDING = {}
 
 
